@@ -120,7 +120,7 @@ def run(rep, tier, seed, replay):
                         vb.append(bb)
                         break
                 fl.append(("overwrite-len", [mk["pos"], v], enc[:mk["pos"]] + vb + enc[mk["pos"] + mk["w"]:]))
-        fl += list(faults.pb_payload_faults(enc))
+        fl += list(faults.pb_payload_faults(enc)) + list(faults.pb_key_faults(enc))
         for kind, detail, data in fl:
             add(path, "decode", data, {"site": "generated", "fault": kind, "detail": detail, "msg": cs["ty"], "schema": cs["sid"], "expect": None})
             if kind != "bitflip":
